@@ -33,6 +33,10 @@ def shapes_for(op, version, rng, reasons, quick):
     msg = D.gen_text(rng, 1, 30)
     out = []
     out.append(('success', True, [Item(RS.SUCCESS, payload=op.payload(rng, version))]))
+    if op.name == 'get':
+        # wrapped keys: Key Wrapping Data with every optional sub-structure present / absent, pairwise different values
+        for shape in ('both', 'enc-only', 'mac-only', 'both-no-params', 'enc-params-only', 'mac-params-only'):
+            out.append(('success-wrapped-' + shape, True, [Item(RS.SUCCESS, payload=D.p_get(rng, version, shape))]))
     for r in reasons:
         out.append(('failure', True, [Item(RS.OPERATION_FAILED, r, D.gen_text(rng, 0, 40))]))
     r0 = rng.choice(list(RR))
@@ -123,6 +127,18 @@ def abstract_items(version, resp, items, mangled):
     return [D.ritem_of_batch_item(bi) for bi in m.batch_items]
 
 
+def first_difference(a, b, path='value'):
+    """Where two projected values differ: 'value[5][2][1][0]: expected ..., got ...'."""
+    if a == b:
+        return None
+    if a is not None and b is not None and a[0] == 'l' and b[0] == 'l' and len(a[1]) == len(b[1]):
+        for i, (x, y) in enumerate(zip(a[1], b[1])):
+            d = first_difference(x, y, '%s[%d]' % (path, i))
+            if d:
+                return d
+    return '%s: expected %s, got %s' % (path, repr(a)[:120], repr(b)[:120])
+
+
 def oracle(ctx, op, version, label, legal, abstract, expected_val, out, truncated=False, witness=None):
     """The property itself, evaluated on the implementation's behaviour (no model)."""
     name = op.name
@@ -167,6 +183,7 @@ def oracle(ctx, op, version, label, legal, abstract, expected_val, out, truncate
                           '%s did not return the data of a successful response' % name)
         elif D.to_val(out[1]) != expected_val:
             w['expected'] = repr(expected_val)[:300]
+            w['first_difference'] = first_difference(expected_val, D.to_val(out[1]))
             ctx.violation({'client': 'pie', 'op': name, 'response': label, 'what': 'wrong-data'}, w,
                           '%s returned data that differs from the payload of the successful response' % name)
 
@@ -203,7 +220,7 @@ def pie_cases(ctx, quick):
                         break
                     abstract = abstract_items(version, resp, items, False)
                     exp = None
-                    if label == 'success':
+                    if legal and label.startswith('success'):
                         exp = D.to_val(op.expect(items[0].payload))
                     oracle(ctx, op, version, label, legal, abstract, exp, out,
                            witness={'arguments': repr(kwargs)[:400], 'response_items': [i.describe() for i in items],
@@ -428,16 +445,29 @@ def proxy_cases(ctx, quick):
 
 
 # ---------------------------------------------------------------------- K(a): the real server stack
-def server_call(ctx, st, op, version, kwargs, cases, meta, tag):
+def server_call(ctx, st, op, version, kwargs, cases, meta, tag, client=None, history=None, rcases=None):
+    """One Pie call against the real server stack.  client=(cl, sock): reuse that client object, switching it to `version`
+    through the public kmip_version setter first (history = the calls it made before)."""
     n0 = len(st.decoded)
-    sock = D.ChunkSock(st)
-    cl = D.make_client(version, sock)
+    if client is None:
+        sock = D.ChunkSock(st)
+        cl = D.make_client(version, sock)
+    else:
+        cl, sock = client
+        cl.kmip_version = version
+    s0 = len(sock.sent)
     out = D.run_call(lambda: D.call_pie(cl, op, kwargs))
-    if not sock.sent:
+    if len(sock.sent) == s0:
         ctx.count('server.%s.%s.nothing-emitted:%s' % (op.name, version.name, out[1] if out[0] == 'other' else out[0]))
         return out
     w = {'client': 'ProxyKmipClient', 'method': op.name, 'arguments': repr(kwargs)[:500], 'kmip_version': version.name,
          'request_hex': sock.sent[-1].hex(), 'response_hex': st.responses[-1].hex(), 'observed': D.outcome_plain(out)}
+    if history is not None:
+        w['history'] = 'same client object, earlier calls: ' + ', '.join('%s under %s' % h for h in history)
+    if rcases is not None:
+        body = payload_body(sock.sent[-1])
+        if body is not None:
+            rcases.append('(CReq %s %s %s %s)' % (KVER[version], D.cp.z(op.code.value), D.cp.byts(body), D.cp.byts(sock.sent[-1])))
     if len(st.decoded) == n0:
         ctx.violation({'client': 'pie', 'op': op.name, 'what': 'request-not-decodable', 'version': version.name}, w,
                       '%s (%s) emitted a request the server could not decode' % (op.name, version.name))
@@ -547,6 +577,14 @@ def scenario(ctx, st, version, rng, cases, meta):
             if got is not None and D.to_val(got) != D.to_val(o):
                 ctx.violation({'client': 'pie', 'what': 'register-get-roundtrip'}, {'version': version.name, 'registered': repr(D.to_val(o)), 'got': repr(D.to_val(got))},
                               'get(register(x)) through the client and the real server is not x')
+    wk = call('create', algorithm=CA.AES, length=128, operation_policy_name=None, name=None, cryptographic_usage_mask=[CUM.WRAP_KEY])
+    if wk is not None:
+        call('activate', uid=wk)
+        spec = {'wrapping_method': enums.WrappingMethod.ENCRYPT,
+                'encryption_key_information': {'unique_identifier': wk,
+                                               'cryptographic_parameters': {'block_cipher_mode': enums.BlockCipherMode.NIST_KEY_WRAP}},
+                'encoding_option': enums.EncodingOption.NO_ENCODING}
+        call('get', uid=uid, key_wrapping_specification=spec)
     call('locate', maximum_items=None, offset_items=None, storage_status_mask=None, object_group_member=None, attributes=None)
     call('locate', maximum_items=2, offset_items=1, storage_status_mask=None, object_group_member=None,
          attributes=[D.kdrv.attr('OBJECT_TYPE', enums.ObjectType.SYMMETRIC_KEY)])
@@ -562,6 +600,61 @@ def scenario(ctx, st, version, rng, cases, meta):
          compromise_occurrence_date=1500000000)
     call('destroy', uid=uid)
     call('get', uid=uid, key_wrapping_specification=None)                 # destroyed: failure
+
+
+SWITCH_OPS = ['create', 'register', 'locate', 'get_attributes']
+
+
+def switch_cases(ctx, quick):
+    """ONE client object whose kmip_version is reassigned between calls: every ordered pair of versions x the operations
+    whose encoding differs across versions; plus one long walk through all transitions on a single client."""
+    rng = ctx.subrng('switch')
+    cases, meta, rcases = [], [], []
+    st = D.ServerStack(str(ctx.work))
+    O = D.OPS_BY_NAME
+    try:
+        k = 0
+        for v1 in D.VERSIONS:
+            for v2 in D.VERSIONS:
+                for name2 in SWITCH_OPS:
+                    name1 = SWITCH_OPS[k % len(SWITCH_OPS)]
+                    k += 1
+                    sock = D.ChunkSock(st)
+                    cl = D.make_client(v1, sock)
+                    hist = []
+                    for name, v in ((name1, v1), (name2, v2)):
+                        for attempt in range(8):
+                            kw = O[name].args(rng, v)
+                            n = len(sock.sent)
+                            server_call(ctx, st, O[name], v, kw, cases, meta, 'switch', client=(cl, sock), history=list(hist),
+                                        rcases=rcases)
+                            if len(sock.sent) > n:
+                                break
+                        hist.append((name, v.name))
+                    ctx.count('switch.%s->%s' % (v1.name, v2.name))
+        # a walk visiting every ordered pair of distinct versions on a single client object
+        sock = D.ChunkSock(st)
+        cl = D.make_client(D.VERSIONS[0], sock)
+        hist = []
+        walk = []
+        n = len(D.VERSIONS)
+        for d in range(1, n):
+            for i in range(n):
+                walk.append(D.VERSIONS[(i * d) % n] if False else D.VERSIONS[i])
+                walk.append(D.VERSIONS[(i + d) % n])
+        for j, v in enumerate(walk):
+            name = SWITCH_OPS[j % len(SWITCH_OPS)]
+            for attempt in range(8):
+                kw = O[name].args(rng, v)
+                n0 = len(sock.sent)
+                server_call(ctx, st, O[name], v, kw, cases, meta, 'walk', client=(cl, sock), history=hist[-6:], rcases=rcases)
+                if len(sock.sent) > n0:
+                    break
+            hist.append((name, v.name))
+        ctx.count('switch.walk.calls', len(walk))
+    finally:
+        st.close()
+    return cases, meta, rcases
 
 
 def server_cases(ctx, quick):
@@ -701,6 +794,17 @@ def run(ctx):
         ctx.log('server disagreement', smeta[i], scases[i][:700])
         ctx.disagreement('server', {'case': smeta[i], 'coq': scases[i][:600]})
     ctx.sample({'server_case': scases[0][:600]})
+    wcases, wmeta, wrcases = switch_cases(ctx, quick)
+    bad = ctx.run_cases('switch', HEADER, wcases, 'check_ccase',
+                        what='Client.interpret vs ProxyKmipClient on ONE client object whose kmip_version is reassigned between calls '
+                             '(all ordered pairs of versions; real KmipSession + KmipEngine)')
+    for i in bad[:20]:
+        ctx.log('switch disagreement', wmeta[i], wcases[i][:500])
+        ctx.disagreement('switch', {'case': wmeta[i], 'coq': wcases[i][:600]})
+    bad = ctx.run_cases('switchreq', HEADER, wrcases, 'check_ccase', shard=40,
+                        what='Request.enc_request under the CURRENT version vs the bytes emitted after a version switch')
+    for i in bad[:20]:
+        ctx.disagreement('switchreq', {'case': wrcases[i][:300]})
     ctx.sample({'framing_case': fcases[len(fcases) // 2][:400]})
     ctx.sample({'proxy_case': pcases[0][:600]})
 
